@@ -142,7 +142,8 @@ class _InlineFunction(XPathFunction):
         if self.varnames is None:
             self.varnames = []
 
-        assert self.body is not None
+        if self.body is None:
+            raise self.error('XPST0003', 'an inline function without a body cannot be called')
         if self.label == 'inline partial function':
             k = 0
             for varname, sequence_type, tk in zip(self.varnames, self.sequence_types, self):
